@@ -166,6 +166,9 @@ package collector
 //@   ensures  lock: !cp.mutex.held
 //@   // C10: a removed template has no armed timer
 //@   ensures  stopped: r && !isnil(old(tplOf(cp, obsDomainID, templateID)).expiryTimer) ==> !tmr(old(tplOf(cp, obsDomainID, templateID))).armed
+//@   // C10: a template that is kept (a condition vetoed the deletion) keeps its timer as it was: a vetoed deletion must not disarm it
+//@   ensures  keptarmed: !r && old(tplHas(cp, obsDomainID, templateID)) && !isnil(old(tplOf(cp, obsDomainID, templateID)).expiryTimer) ==>
+//@                    tmr(old(tplOf(cp, obsDomainID, templateID))).armed == old(tmr(tplOf(cp, obsDomainID, templateID)).armed)
 //@   modifies cp.mutex.held, cp.templatesMap[*], cp.templatesMap[obsDomainID][*], tmr(cp.templatesMap[obsDomainID][templateID]).armed
 //@   loop 1 invariant cnt: 0 <= $i && $i <= len(condFns) && cp.mutex.held
 //@   loop 1 decreases len(condFns) - $i
